@@ -111,7 +111,7 @@ func c04(c *Ctx) {
 				}
 			}
 		case strings.HasPrefix(trim, "DROP"):
-			if st.fn == nil || st.fn.Name() != "DeleteMailboxWithRemoteID" {
+			if st.fn == nil || engine.ShortName(st.fn) != "DeleteMailboxWithRemoteID" {
 				bad = "message table dropped outside DeleteMailboxWithRemoteID"
 			}
 		}
@@ -124,7 +124,7 @@ func c04(c *Ctx) {
 	for _, f := range c.productFuncs() {
 		for _, cs := range engine.Calls(f) {
 			sc := cs.Common().StaticCallee()
-			if sc == nil || sc.Name() != "ItemUIDNext" || sc.Pkg == nil || engine.RelPkg(sc.Pkg.Pkg.Path()) != "internal/response" {
+			if sc == nil || engine.ShortName(sc) != "ItemUIDNext" || sc.Pkg == nil || engine.RelPkg(sc.Pkg.Pkg.Path()) != "internal/response" {
 				continue
 			}
 			sinks++
@@ -151,7 +151,7 @@ func c04(c *Ctx) {
 	}
 	R.Min("R04.3", "UIDNEXT announcement sites", sinks, 3)
 	for _, st := range res.stmts {
-		if st.fn != nil && st.fn.Name() == "GetMailboxUID" {
+		if st.fn != nil && engine.ShortName(st.fn) == "GetMailboxUID" {
 			up := strings.ToUpper(st.text)
 			ok := strings.Contains(up, "SQLITE_SEQUENCE") && !strings.Contains(up, "MAX(") && !strings.Contains(up, "COUNT(") && !msgTableRe.MatchString(st.text)
 			R.Check(ok, "R04.3", "GetMailboxUID|statement", st.pos, "GetMailboxUID reads the AUTOINCREMENT high-water mark", "GetMailboxUID derives the next UID from live rows: "+st.text)
@@ -198,7 +198,7 @@ func c04(c *Ctx) {
 	R.Min("R04.4", "UIDVALIDITY write sites", vs, 6)
 	// GenerateUIDValidity implementations forward to Generate
 	for _, f := range c.productFuncs() {
-		if f.Name() == "GenerateUIDValidity" && len(f.Blocks) > 0 {
+		if engine.ShortName(f) == "GenerateUIDValidity" && len(f.Blocks) > 0 {
 			ok := false
 			for _, ret := range engine.Returns(f) {
 				for _, o := range P.Origins(engine.ResultOf(ret, 0), engine.OriginOpts{}) {
@@ -222,7 +222,7 @@ func c04(c *Ctx) {
 				continue
 			}
 			var arg ssa.Value
-			switch sc.Name() {
+			switch engine.ShortName(sc) {
 			case "ItemAppendUID":
 				arg = cs.Common().Args[1]
 			case "ItemCopyUID":
@@ -247,8 +247,8 @@ func c04(c *Ctx) {
 				okAll = false
 				bad = o.V.String() + " (" + o.Kind + ") in " + parentName(c, o.V)
 			}
-			R.Check(okAll && len(origins) > 0, "R04.6", c.name(f)+"|"+sc.Name(), P.Pos(cs.Pos()), "announced UIDs come from the rows the insert returned",
-				"the UID announced in "+sc.Name()+" can originate from "+bad+" rather than from the inserted rows: the message may later be found under a different UID")
+			R.Check(okAll && len(origins) > 0, "R04.6", c.name(f)+"|"+engine.ShortName(sc), P.Pos(cs.Pos()), "announced UIDs come from the rows the insert returned",
+				"the UID announced in "+engine.ShortName(sc)+" can originate from "+bad+" rather than from the inserted rows: the message may later be found under a different UID")
 		}
 	}
 	R.Min("R04.6", "APPENDUID/COPYUID sites", us, 3)
@@ -283,10 +283,10 @@ func c04epoch(c *Ctx) {
 					if isCall {
 						if sc := call.Call.StaticCallee(); sc != nil && sc.Pkg != nil && sc.Pkg.Pkg.Path() == "sync/atomic" {
 							atomicOK = true
-							if strings.HasPrefix(sc.Name(), "Store") || strings.HasPrefix(sc.Name(), "Add") || strings.HasPrefix(sc.Name(), "Swap") {
-								R.Fail("R04.5", c.name(f)+"|unconditional-write", P.Pos(call.Pos()), "lastUID is written by "+sc.Name()+" without the compare-and-swap that makes generated values strictly increasing")
+							if strings.HasPrefix(engine.ShortName(sc), "Store") || strings.HasPrefix(engine.ShortName(sc), "Add") || strings.HasPrefix(engine.ShortName(sc), "Swap") {
+								R.Fail("R04.5", c.name(f)+"|unconditional-write", P.Pos(call.Pos()), "lastUID is written by "+engine.ShortName(sc)+" without the compare-and-swap that makes generated values strictly increasing")
 							}
-							if strings.HasPrefix(sc.Name(), "CompareAndSwap") {
+							if strings.HasPrefix(engine.ShortName(sc), "CompareAndSwap") {
 								// dominated by the false edge of old >= new
 								old, nw := call.Call.Args[1], call.Call.Args[2]
 								ok := false
